@@ -165,6 +165,11 @@ class CloneUniverse(Universe):
             if v.shape is None:
                 raise ValueError("no shape")
             v.shape[c["i"]] = c["j"]
+        elif op == "SetDenot":
+            v = self.V(c["v"])
+            if v.shape is None:
+                raise ValueError("no shape")
+            v.shape.set_denotation(c["i"], c["name"])
         elif op == "MetaPut":
             self.V(c["v"]).metadata_props[c["name"]] = "x"
         elif op == "ValMetaPut":
@@ -227,12 +232,42 @@ class CloneUniverse(Universe):
             for sg in self._subgraphs(n):
                 yield from self._all_nodes(sg)
 
+    VALUE_COLS = ("vProd", "vIdx", "vUses", "vGraph", "vIsIn", "vIsOut", "vIsInit", "vName", "vConst", "ty", "sh", "dn", "md", "mt")
+    NODE_COLS = ("nIn", "nOut", "nGraph", "sub", "nmd", "nat")
+    GRAPH_COLS = ("gNodes", "gIn", "gOut", "gInitK", "gInitV", "gmd")
+
+    def root_views(self) -> dict:
+        """For every root graph (a graph that is not the body of a node): the cells of the projection that belong to
+        objects under it, and its serialization (None when it cannot be serialized in this state)."""
+        bodies = {id(sg) for n in self.nodes for sg in self._subgraphs(n)}
+        out = {}
+        for gi, g in enumerate(self.graphs, 1):
+            if id(g) in bodies:
+                continue
+            members = set()
+            for sg in self._graphs_under(g):
+                members.add(("g", self.gid(sg)))
+                for v in list(sg.inputs) + list(sg.outputs) + list(sg.initializers.values()):
+                    members.add(("v", self.vid(v)))
+                for n in sg:
+                    members.add(("n", self.nid(n)))
+                    for v in list(n.inputs) + list(n.outputs):
+                        if v is not None:
+                            members.add(("v", self.vid(v)))
+            try:
+                ser = ir.to_proto(g).SerializeToString(deterministic=True)
+            except Exception:  # noqa: BLE001 - unnamed values, ...: nothing to compare
+                ser = None
+            out[gi] = (members, ser)
+        return out
+
     def project_c(self) -> dict:
         o = self.project()
         o["vConst"] = [v.const_value is not None for v in self.values]
         o["sub"] = [[self.gid(g) for g in self._subgraphs(n)] for n in self.nodes]
         o["ty"] = [("" if v.type is None else ("SEQ:" if isinstance(v.type, ir.SequenceType) else "") + v.dtype.name) for v in self.values]
         o["sh"] = [(NOSHAPE if v.shape is None else [d if isinstance(d, int) else -1 for d in v.shape.dims]) for v in self.values]
+        o["dn"] = [([] if v.shape is None else [(v.shape.get_denotation(i) or "") for i in range(len(v.shape))]) for v in self.values]
         o["md"] = [sorted(v.metadata_props) for v in self.values]
         o["mt"] = [sorted(v.meta) for v in self.values]
         o["nmd"] = [sorted(n.metadata_props) for n in self.nodes]
@@ -247,6 +282,7 @@ def obs_of_cs(cs: dict) -> dict:
     o["sub"] = [list(x) for x in cs["sub"]]
     o["ty"] = list(cs["ty"])
     o["sh"] = [list(x) for x in cs["sh"]]
+    o["dn"] = [list(x) for x in cs["dn"]]
     for k in ("md", "mt", "nmd", "nat", "gmd"):
         o[k] = [sorted(x) for x in cs[k]]
     return o
@@ -284,10 +320,12 @@ class CloneReplayer:
             return
         after_clone = any(cc[0] == "Clone" and out == "ok" for cc, out in h)
         dirty = False
+        views = u.root_views() if after_clone else None
         for vi, row in enumerate(rec["rows"]):
             if dirty:
                 u = self.build(h)
                 dirty = False
+                views = u.root_views() if after_clone else None
             c = call_from_compact(row["c"])
             c["_variant"] = (vi + self.stats["states"]) % 4
             exp = row["out"]
@@ -333,6 +371,8 @@ class CloneReplayer:
                 continue
             # an edit: whatever changed on the code must be a cell the model changes too
             exp_obs = obs_of_cs(row["post"]) if exp == "ok" else pre_obs
+            if after_clone and dirty and got == "ok":
+                self.serialization_independence(u, views, pre_obs, real, rec, row, c)
             if real == exp_obs:
                 continue
             rc, pc, mc = cells(real), cells(pre_obs), cells(exp_obs)
@@ -344,6 +384,35 @@ class CloneReplayer:
             else:
                 self.finding("DIV", f"DIV:{c['op']}:{exp}:post-differs", rec, row, got=got,
                              fields=irdrive.diff_obs(exp_obs, real))
+
+
+def _changed_objects(pre: dict, post: dict) -> set:
+    kind = {**{k: "v" for k in CloneUniverse.VALUE_COLS}, **{k: "n" for k in CloneUniverse.NODE_COLS},
+            **{k: "g" for k in CloneUniverse.GRAPH_COLS}}
+    pc, rc = cells(pre), cells(post)
+    return {(kind[k[0]], k[1]) for k in set(pc) | set(rc) if pc.get(k) != rc.get(k) and k[0] in kind}
+
+
+def _serialization_independence(self, u, views, pre_obs, real, rec, row, c):
+    """The serialization of a copy is an observable of that copy: an edit that touches no object under a root graph must
+    leave that graph's serialization byte for byte as it was (tensors may be shared between the copies, their
+    bytes and the names they are written under may not follow the other copy's edits)."""
+    changed = _changed_objects(pre_obs, real)
+    after = u.root_views()
+    for gi, (members, ser) in views.items():
+        if gi not in after or ser is None:
+            continue
+        members2, ser2 = after[gi]
+        if ser2 is None or changed & (members | members2):
+            continue
+        self.stats["independent_serializations"] += 1
+        if ser != ser2:
+            self.finding("C13", f"C13:{c['op']}:serialization-of-untouched-copy-changed", rec, row, graph=gi,
+                         message=f"{c['op']} touched no object of graph {gi}, yet that graph now serializes differently "
+                                 "(state shared between the copies shows in the serialization)")
+
+
+CloneReplayer.serialization_independence = _serialization_independence
 
 
 def _work(args):
